@@ -204,6 +204,49 @@ def runs(ck):
   return jobs, res, traces
 
 
+def fault_histories(ck):
+  """Histories in which ONE parameter's statistics overflow at one step (its roots fail and must be
+  rejected) while the other parameters stay healthy: the accept/reject decision is taken per statistic
+  from the error figures gathered from all devices, so every device must still take the single-device
+  decision for every statistic - with and without training metrics kept in the state."""
+  tree = [[4, 3], [3, 5], [2, 6]]
+  rec = {"N": 6, "counts": [2, 2, 2], "sizes": [[4, 3], [3, 5], [2, 6]], "crank": 0}
+  Ds = [1, 2, 3, 4]
+  T = 4
+  jobs = []
+  gi = 0
+  for mode in ("pmap", "pmapq"):
+    for metrics in (False, True):
+      for victim in ((0, 2) if ck.quick else (0, 1, 2)):
+        classes = [["ok"] * 3 for _ in range(T)]
+        classes[1 + gi % 2][victim] = "huge"
+        o = {"mode": mode, "P": 1, "S": 1, "Start": 1, "merge": False, "block_size": 8, "compression_rank": 0,
+             "beta2": [1.0, 0.75][gi % 2], "graft": ["SGD", "RMSPROP"][(gi // 2) % 2], "metrics": metrics}
+        jobs.append({"o": o, "tree": tree, "Ds": Ds, "T": T, "seed": ck.seed * 1000 + 500 + gi, "rec": rec,
+                     "classes": classes})
+        gi += 1
+  res = core.run_workers("harness.workers.devices_run", jobs, devices=4, work=ck.work, chunk=1)
+  traces = []
+  for j, r in zip(jobs, res):
+    o = j["o"]
+    variant = {"pmap": "full", "pmapq": "int16"}[o["mode"]] + ("" if o["metrics"] else "_nometrics")
+    for D in j["Ds"]:
+      ck.count(1, key=["fault_history", variant, D], nontrivial=D > 1)
+    if r["error"]:
+      ck.violation(f"ds|{variant}|fault_history|{r['error']['kind']}_error",
+                   f"one parameter overflowing, D={r['error']['D']}: raised {r['error']['error']}",
+                   {"job": j, "err": r["error"]})
+    elif r["mismatches"]:
+      m = r["mismatches"][0]
+      ck.violation(f"ds|{variant}|fault_history|{m['clause']}",
+                   f"history with parameter overflow {j['classes']}, D={m['D']} step {m['step']}: {m['clause']} "
+                   f"{str(m['detail'])[:300]}", {"job": j, "mismatches": r["mismatches"][:10]})
+    else:
+      ck.traces_ok(len(j["Ds"]))
+    traces.extend(r["traces"])
+  return traces
+
+
 def _phase(ck, name, t0):
   ck.cov.setdefault("phase_wall_s", {})[name] = round(time.time() - t0, 1)
   return time.time()
@@ -215,6 +258,7 @@ def run(ck):
   index_maps(ck); t = _phase(ck, "R1_R3a_index_maps", t)
   all_ones_corner(ck); t = _phase(ck, "all_1x1_corner", t)
   jobs, res, traces = runs(ck); t = _phase(ck, "R2_R3b_runs", t)
+  traces = traces + fault_histories(ck); t = _phase(ck, "R2_fault_histories", t)
   # ---- binding self-test (R2): a run whose D-device result is compared against ANOTHER seed's
   # single-device reference must be flagged; done by a worker-side switch? no: corrupt expectation
   # of the Collect step instead (statistics per parameter)
